@@ -80,7 +80,7 @@ CHECKS = {
         note=NOTE + " C02 specifically: the theorems are about the component models and the Space/Pt model; that a real "
              "simulation's step is a history of component calls is proved for the five modelled example classes "
              "(Props/Examples.lean), for MultiCorridor, MultiAgentGridSim, ReachTheTargetSim (every reachable state, "
-             "Props/Reach.lean), in part for the two pacman classes (Props/Pacman.lean) and for BroadcastSim of "
+             "Props/Reach.lean), for the two pacman classes (Props/Pacman.lean, Props/PacmanHist.lean) and in part for BroadcastSim of "
              "comms_blocking.py (Props/Broadcast.lean: invariant, observations, no-raise under BC.cfgHypb, reset forgets, "
              "soundness of delivery; float64 messages tied per call within 2^-40; completeness of delivery judged at run "
              "time by BC.specBC); gymnasium's `contains` is monitored at run time, not proved; rejected "
@@ -563,9 +563,12 @@ MORE_EXAMPLES = {
            "dicts, raising steps with the exact state they leave): PM.pm_lawful / PM.pm_WF, pacman_reset_establishes, "
            "pacman_reset_forgets, pacman_fresh_twin, PM.step_vsame, pacman_reachable_inv, pacman_reset_after_anything "
            "and the witnesses pacman_teleport_outside_grid_raises, pacman_refused_teleport_witness, "
-           "pacman_allDone_ignores_eaten_food, pacmansimple_few_baddies_raises are proved; the cell structure of every "
-           "reachable state (WInvFloat), observations in space and the no-raise statement under PM.stepPre are stated in "
-           "Props/Pacman.lean and judged at run time on every case until proved (see DESIGN.md 11.2).",
+           "pacman_allDone_ignores_eaten_food, pacmansimple_few_baddies_raises, and (second workstream) "
+           "pacman_reachable_WInvFloat (the cell structure of every reachable state, raising steps included), "
+           "pacman_observations_in_space (observer chain re-proved from WInvFloat), pacman_step_keeps_WInv / "
+           "pacman_step_noRaise under PM.stepPre, pacman_hist (the judge PM.specPM holds on the model's trace of every "
+           "history) and pacman_example_grid_cfgWF_teleSafe (the packaged example_grid, 366 agents, by decide +kernel) "
+           "are proved (see DESIGN.md 11.2).",
     "C03": "MultiCorridor's own invariant (positions within 0..end-1, not-done agents pairwise apart, corridor cells = the "
            "not-done agents at their positions) is proved for every history (corridor_reachable_inv, corridor_inv_reading); "
            "MultiAgentGridSim is a modelled instance (multigrid_reachable_WInv, multigrid_simIface_reachable); "
